@@ -507,6 +507,18 @@ func (w *World) checkCallOutcome(r *CallRec) {
 		w.violate("C05", "deadline-overrun", "call %s (%s) returned at %v, deadline %v (+%v injected stall): overrun %v; err=%s",
 			s.Tag, s.Via, r.EndAt, r.Deadline, r.StallIn, r.EndAt-r.Deadline-r.StallIn, errStr(r.Err))
 	}
+	// C14 / C05: a caller that cancels gets control back at once, wherever the call stands
+	// (once BeginCall has returned: while a connection is being established the library waits
+	// on the socket with the context's DEADLINE only, which is within what C05 states)
+	if r.Cancelled && r.TOutEv != 0 && r.CancelEv > r.TOutEv && r.BeginErr == nil && s.ReadPause == 0 && s.ChunkPause == 0 { // (a caller busy in its own code notices later, of course)
+		w.eval("C14.cancel-ends-wait")
+		if r.EndAt > r.CancelAt+r.StallIn+w.Grid {
+			d := fmt.Sprintf("call %s (%s) was cancelled by its caller at %v and returned only at %v (+%v injected stall): %v later; err=%s",
+				s.Tag, s.Via, r.CancelAt, r.EndAt, r.StallIn, r.EndAt-r.CancelAt-r.StallIn, errStr(r.Err))
+			w.violate("C14", "cancel-does-not-end-wait", "%s", d)
+			w.violate("C05", "cancel-does-not-end-wait", "%s", d)
+		}
+	}
 	if r.Err != nil && w.corruptPlanned == false && strings.Contains(r.Err.Error(), "checksum") {
 		// nobody altered a byte in transit in this run: a checksum failure means the library
 		// mixed up its own state (e.g. one checksum object serving two messages)
